@@ -85,3 +85,28 @@ Example C15_scale_and_slant_do_not_commute :
   affine_eqb m (build_matrix qc0 qc0 (Q2Qc 2) (Q2Qc 1) (Q2Qc (1#2)) qc0) = false.
 Proof. exact swapped_order_differs. Qed.
 Print Assumptions C15_scale_and_slant_do_not_commute.
+
+(* ---- anchor propagation (filters/propagateAnchors.py transcribed: Geometry/Propagate.v) ---- *)
+From U2F Require Import Geometry.Propagate Geometry.PropagateProofs.
+
+(* nothing but anchors changes; what is added never has the name of an anchor the composite already has *)
+Theorem C15_propagation_never_overrides : forall gs mk name g g',
+  propagate_step gs mk name g = Some g' ->
+  gcontours g' = gcontours g /\ gcomps g' = gcomps g /\ gwidth g' = gwidth g /\
+  exists added, ganchors g' = ganchors g ++ added /\
+                forall k v, In (k, v) added -> forall a, In a (ganchors g) -> fst a <> k.
+Proof. exact propagation_never_overrides. Qed.
+Print Assumptions C15_propagation_never_overrides.
+
+(* every added anchor sits where one of the composite's components maps an anchor of its own glyph *)
+Theorem C15_added_anchor_is_a_component_image : forall gs mk name g g' k v,
+  propagate_step gs mk name g = Some g' -> In (k, v) (ganchors g') ->
+  In (k, v) (ganchors g) \/ image_of_a_component gs g v.
+Proof. exact added_anchor_is_a_component_image. Qed.
+Print Assumptions C15_added_anchor_is_a_component_image.
+
+(* applied a second time it adds nothing *)
+Theorem C15_second_propagation_adds_nothing : forall gs mk name g g',
+  propagate_step gs mk name g = Some g' -> propagate_step gs mk name g' = Some g'.
+Proof. exact second_run_adds_nothing. Qed.
+Print Assumptions C15_second_propagation_adds_nothing.
